@@ -40,10 +40,33 @@ TRUSTED = ["CPython ast", "sa.bitslice", "sa.consteval", "sa.paths"]
 
 
 def run(ctx: Ctx) -> None:
+    range_rule(ctx, "R18.range")
+    le_rule(ctx)
+    acc_rule(ctx)
+    cfg_rule(ctx)
+
+
+def range_rule(ctx: Ctx, rid: str = "R18.range") -> None:
     m = ctx.model
     mem = m.cls("Memory")
 
-    r = ctx.rule("R18.range", "every cell access is wrapped (optionally) then range-checked, on every path")
+    r = ctx.rule(rid, "every cell access is wrapped (optionally) then range-checked, on every path")
+    # the range check belongs to the single-cell accessors (after the wrap): a check of an unwrapped multi-cell address elsewhere
+    # rejects accesses that wrap around the end of the address space
+    for f in all_functions(m):
+        for c in calls_in(f.node):
+            if isinstance(c.func, ast.Attribute) and c.func.attr == "assert_address_in_range" and not (f.cls is mem and f.name in ("_read_value", "_write_value")):
+                r.check(False, f"{short(f.qname)}|assert_address_in_range", f.loc(c), f"{short(f.qname)} range-checks `{seg(f, c.args[0]) if c.args else '?'}` itself: "
+                        "only the single-cell accessors check (the wrapped address of) each cell; an extra check of a multi-cell access rejects "
+                        "stores/loads that wrap around the end of the address space or reports a different address")
+    # the flat memory has one implementation: a subclass that overrides part of the core changes what a load / store does
+    CORE = {"_read_value", "_write_value", "_read_multiple", "_write_multiple", "assert_address_in_range", "reset"} | \
+        {f"{k}_{w}" for k in ("read", "write") for w in ("byte", "halfword", "word", "doubleword")}
+    for k in m.subclasses(mem, strict=True):
+        if k.name == "CsrRegisterFile":
+            continue  # the CSR register file of the confirmed tree: its own privilege-checked cells, never the data memory (CSR* is out of scope)
+        over = sorted(CORE & set(k.methods))
+        r.check(not over, f"{k.name}|overrides", k.loc(), f"{k.name} subclasses Memory and overrides {over}: cells of that memory no longer behave as the flat byte store")
     n_sub = 0
     for f in all_functions(m):
         for n in walk_no_nested(f.node):
@@ -107,19 +130,15 @@ def run(ctx: Ctx) -> None:
             f"the range check is no longer `address not in address_range -> raise MemoryAddressError` (raises: {raises})")
     r.floor(6)
 
-    le_rule(ctx)
-    acc_rule(ctx)
-    cfg_rule(ctx)
 
-
-def le_rule(ctx: Ctx) -> None:
+def le_rule(ctx: Ctx, rid: str = "R18.le") -> None:
     """Little-endian (de)composition by abstract interpretation (sa.absrun over the bit-slice domain):
     the multi-cell accessors are *run* on a symbolic value / symbolic cells for 1, 2, 4 and 8 cells of
     8 and 16 bits; what matters is which bits reach which address, not how the loop is written."""
     from ..absrun import AbsRun
     m = ctx.model
     mem = m.cls("Memory")
-    r = ctx.rule("R18.le", "little-endian (de)composition, abstract interpretation in the bit-slice domain")
+    r = ctx.rule(rid, "little-endian (de)composition, abstract interpretation in the bit-slice domain")
     fw = m.method(mem, "_write_multiple")
     fr = m.method(mem, "_read_multiple")
     for w in (8, 16):
